@@ -7,6 +7,7 @@
 -/
 import Dlismodel.Model.Hc
 import Dlismodel.Generated.Obligations
+import Dlismodel.Proofs.Convert
 namespace Dlis.C17
 open Dlis
 
@@ -98,5 +99,46 @@ example : Bracketed [.enter, .other, .enter, .other, .leave, .leave, .other] :=
 example : hcRun { flag := false, saved := [] } [.enter, .other, .enter, .other, .leave, .leave, .other] =
     { flag := false, saved := [] } := by decide
 example : validateString true [65, 97] = .error .value ∧ validateString true [65, 45, 57] = .ok [65, 45, 57] := by decide
+
+/-! ### the mode at the attribute setters (`Model/Convert.lean`, instantiated from the pinned converter table) -/
+
+/-- in the mode a name-like attribute (AXIS-ID, SERIAL-NUMBER, … — every attribute whose pinned converter is
+`validate_string`) accepts only non-empty strings over `[A-Z0-9_-]`, and holds them unchanged -/
+theorem setter_names_restricted {rc : Except Err (Option Nat)} {mem : List PStr} {v r : PyVal}
+    (h : applyConv .validateString true rc mem v = .ok r) : ∃ s ec p, r = .str s ec p ∧ r = v ∧ hcString s = true :=
+  validateString_hc h
+
+/-- in the mode every enumerated attribute (units, index type, equipment type and location, …) holds a member of
+its enumeration — or nothing, where that is allowed; a soft converter is strict there -/
+theorem setter_enums_restricted {cls : String} {soft an : Bool} {rc : Except Err (Option Nat)} {mem : List PStr}
+    {v r : PyVal} (h : applyConv (.enum cls soft an) true rc mem v = .ok r) :
+    (r = .none ∧ v = .none ∧ an = true) ∨
+    (∃ s ec p, v = .str s ec p ∧ r = .str s (if ec = some cls then none else ec) p ∧
+      (ec = some cls ∨ mem.contains s = true)) :=
+  enum_strict (by simp) h
+
+/-- outside the mode a soft enumeration accepts (with a warning) any string, unchanged -/
+theorem setter_soft_outside {cls : String} {an : Bool} {rc : Except Err (Option Nat)} {mem : List PStr}
+    (s : PStr) (p : StrParse) :
+    applyConv (.enum cls true an) false rc mem (.str s none p) = .ok (.str s none p) := by
+  simp only [applyConv]
+  split
+  · rename_i h; simp at h
+  · split <;> simp
+
+/-- units: the setter applies the (soft, None-allowed) unit enumeration, so in the mode only the standard's unit
+symbols are accepted -/
+theorem units_restricted {a : AttrSpec} {um : List PStr} {st st' : AttrState} {u : PyVal}
+    (h : setUnits a true um st u = .ok st') :
+    (u = .none ∧ st'.units = none) ∨ ∃ s ec p, u = .str s ec p ∧ st'.units = some s ∧ (ec = some "Unit" ∨ um.contains s = true) := by
+  unfold setUnits at h
+  split at h
+  · simp at h
+  · split at h
+    · simp at h
+    · rename_i r hr
+      rcases enum_strict (by simp) hr with ⟨_, hu, _⟩ | ⟨s, ec, p, hu, _, hm⟩
+      · subst hu; simp at h; exact Or.inl ⟨rfl, by rw [← h]⟩
+      · subst hu; simp at h; exact Or.inr ⟨s, ec, p, rfl, by rw [← h], hm⟩
 
 end Dlis.C17
